@@ -134,6 +134,7 @@ class Interp:
         self.feas_timeout_ms = feas_timeout_ms
         self._feas_cache = {}
         self._quant_cache = {}
+        self._quant_keep = []
         self._globals_cache = {}
         self._resolving = set()
         self._class_cache = {}
@@ -228,10 +229,12 @@ class Interp:
             return True
         key = (tuple(t.get_id() for t in qf), e.get_id(), len(self.axioms))
         if key in self._feas_cache:
-            return self._feas_cache[key]
+            return self._feas_cache[key][0]
         r, _ = self.check(qf + [e])
         ok = r != "unsat"
-        self._feas_cache[key] = ok
+        # the key is made of z3 AST ids: the cache entry keeps those ASTs alive, otherwise z3 reuses the id of a freed
+        # term for a different one and a stale verdict (e.g. "infeasible") is returned for an unrelated query
+        self._feas_cache[key] = (ok, qf, e)
         return ok
 
     def _has_quant(self, t):
@@ -254,6 +257,7 @@ class Interp:
             if z3.is_app(e):
                 todo.extend(e.children())
         self._quant_cache[k] = found
+        self._quant_keep.append(t)  # keep the AST alive: its id is the cache key (ids of freed terms are reused)
         return found
 
     def branch(self, st, cond):
@@ -1179,7 +1183,15 @@ class Interp:
             yield st, st.alloc(ObjE(cls, {"__tuple__": items}))
             return
         obj = st.alloc(ObjE(cls))
+        if self.is_subclass(cls, BuiltinClass("list", list)):
+            # class deriving from the builtin list (e.g. BlockCollection): list payload + the class's own methods
+            st.get(obj).attrs["__list__"] = st.alloc(ListE([]))
         init, where = self.class_lookup(cls, "__init__")
+        if init is None and "__list__" in st.get(obj).attrs and not kwargs and len(args) <= 1:
+            if args:
+                st.get(st.get(obj).attrs["__list__"]).items.extend(self.iterate(args[0], st))
+            yield st, obj
+            return
         if init is None:
             if args or kwargs:
                 raise Unsupported("constructor args without __init__ for %s" % cls.name)
@@ -1337,6 +1349,8 @@ class Interp:
                 m, _ = self.class_lookup(e.cls, "__bool__")
                 if m is None:
                     m2, _ = self.class_lookup(e.cls, "__len__")
+                    if m2 is None and "__list__" in e.attrs:
+                        return len(st.get(e.attrs["__list__"]).items) > 0
                     if m2 is None:
                         return True
                     outs = list(self.call(m2, [v], {}, st))
